@@ -209,7 +209,37 @@ def layer_meta_case(case, rec):
     oracle) - 'including ... outputs of the nnet layers'."""
     from vf.checks import c02
 
+    mm = _layer_grad_meta(case)
+    if mm is not None:
+        return mm
     return c02.check_case(case, rec)
+
+
+def _layer_grad_meta(case):
+    """every gradient the layer's backward pass stored is an ndarray of the tensor's own shape and dtype (the layers
+    write some parameter gradients themselves, so nothing downstream re-casts them)"""
+    import mygrad as mg
+
+    reset_mygrad()
+    run = ir.MgRun(case["prog"]).run()
+    if run.error is not None:
+        return None  # (reported by the value oracle)
+    L = run.env[case["L"]]
+    try:
+        if case.get("seed") is None:
+            L.backward()
+        else:
+            L.backward(ir.decode_seed(mg, case["seed"]))
+    except Exception:  # noqa: BLE001
+        return None
+    for h, t in run.env.items():
+        if not isinstance(t, mg.Tensor) or t.grad is None:
+            continue
+        g = t.grad
+        if not isinstance(g, np.ndarray) or g.shape != t.shape or g.dtype != t.dtype:
+            return Mismatch("grad_meta", f"[{case.get('op')}] h{h}: grad is {type(g).__name__} shape {getattr(g, 'shape', None)} dtype "
+                                         f"{getattr(g, 'dtype', None)}; tensor {t.shape} {t.dtype}", h=h, op=case.get("op"))
+    return None
 
 
 def run_shard(shard, seed, tier):
